@@ -22,8 +22,9 @@ type Job struct {
 	PadZero  bool              `json:"pad_zero,omitempty"`
 	KeepTape bool              `json:"keep_tape,omitempty"`
 	Trace    int               `json:"trace,omitempty"`
-	Params   map[string]string `json:"params,omitempty"` // scenario variant knobs (e.g. faults=off)
-	Sample   bool              `json:"sample,omitempty"` // include a written-out description of the case
+	Params   map[string]string `json:"params,omitempty"`   // scenario variant knobs (e.g. faults=off)
+	Sample   bool              `json:"sample,omitempty"`   // include a written-out description of the case
+	Property string            `json:"property,omitempty"` // property of the check this run belongs to
 }
 
 // Violation is one oracle failure.
@@ -38,43 +39,44 @@ func (v Violation) Class() string { return v.Property + "|" + v.Rule + "|" + v.K
 
 // Out is the result record a run prints.
 type Out struct {
-	Scenario    string         `json:"scenario"`
-	Seed        uint64         `json:"seed"`
-	Status      string         `json:"status"`
-	ExitNote    string         `json:"exit_note,omitempty"`
-	Violations  []Violation    `json:"violations,omitempty"`
-	Stats       map[string]int `json:"stats,omitempty"`
-	Steps       int            `json:"steps"`
-	Switches    int            `json:"switches"`
-	Preemptions int            `json:"preemptions"`
-	Stalls      int            `json:"stalls"`
-	LockWaits   int            `json:"lock_waits"`
-	Goroutines  int            `json:"goroutines"`
-	Hash        string         `json:"hash"`
-	SwitchHash  string         `json:"switch_hash"`
-	CaseHash    string         `json:"case_hash"`
-	SitePairs   []uint32       `json:"site_pairs,omitempty"`
-	SimNs       int64          `json:"sim_ns"`
-	Draws       int            `json:"draws"`
-	Nontrivial  bool           `json:"nontrivial"`
-	Tape        []int32        `json:"tape,omitempty"`
-	TapeLabels  []string       `json:"tape_labels,omitempty"`
-	TapeLab     []uint16       `json:"tape_lab,omitempty"`
-	Sample      interface{}    `json:"sample,omitempty"`
-	Dump        []string       `json:"dump,omitempty"`
-	Trace       []string       `json:"trace,omitempty"`
-	Events      []string       `json:"events,omitempty"`
-	Inconclusive string        `json:"inconclusive,omitempty"`
+	Scenario     string         `json:"scenario"`
+	Seed         uint64         `json:"seed"`
+	Status       string         `json:"status"`
+	ExitNote     string         `json:"exit_note,omitempty"`
+	Violations   []Violation    `json:"violations,omitempty"`
+	Stats        map[string]int `json:"stats,omitempty"`
+	Steps        int            `json:"steps"`
+	Switches     int            `json:"switches"`
+	Preemptions  int            `json:"preemptions"`
+	Stalls       int            `json:"stalls"`
+	LockWaits    int            `json:"lock_waits"`
+	Goroutines   int            `json:"goroutines"`
+	Hash         string         `json:"hash"`
+	SwitchHash   string         `json:"switch_hash"`
+	CaseHash     string         `json:"case_hash"`
+	SitePairs    []uint32       `json:"site_pairs,omitempty"`
+	SimNs        int64          `json:"sim_ns"`
+	Draws        int            `json:"draws"`
+	Nontrivial   bool           `json:"nontrivial"`
+	Tape         []int32        `json:"tape,omitempty"`
+	TapeLabels   []string       `json:"tape_labels,omitempty"`
+	TapeLab      []uint16       `json:"tape_lab,omitempty"`
+	Sample       interface{}    `json:"sample,omitempty"`
+	Dump         []string       `json:"dump,omitempty"`
+	Trace        []string       `json:"trace,omitempty"`
+	Events       []string       `json:"events,omitempty"`
+	Inconclusive string         `json:"inconclusive,omitempty"`
 }
 
 // Ctx is handed to a scenario.
 type Ctx struct {
-	Job   *Job
-	mu    sync.Mutex
-	viol  []Violation
-	stats map[string]int
-	desc  map[string]interface{}
-	incon string
+	Job          *Job
+	mu           sync.Mutex
+	viol         []Violation
+	stats        map[string]int
+	desc         map[string]interface{}
+	incon        string
+	exitExpected bool
 }
 
 func NewCtx(j *Job) *Ctx {
@@ -122,7 +124,16 @@ func (c *Ctx) Describe(k string, v interface{}) {
 }
 
 // Violations returns the recorded violations.
-func (c *Ctx) Violations() []Violation { c.mu.Lock(); defer c.mu.Unlock(); return append([]Violation(nil), c.viol...) }
+// ExpectExit declares that this run ending in os.Exit (called by the code under test) is
+// part of the scenario. Any other exit is a crash: the framework recovers a panic in
+// CheckPanic, dumps it and terminates the process.
+func (c *Ctx) ExpectExit() { c.mu.Lock(); c.exitExpected = true; c.mu.Unlock() }
+
+func (c *Ctx) Violations() []Violation {
+	c.mu.Lock()
+	defer c.mu.Unlock()
+	return append([]Violation(nil), c.viol...)
+}
 
 // Scenario is one property's world + workload + oracle.
 type Scenario interface {
@@ -189,6 +200,9 @@ func SchedConfig(tp *tape.Tape, sc Scenario, j *Job) simrt.Config {
 		cfg.Stalls = true
 		cfg.StallProb = 0.002
 	}
+	if tp.Draw(3, "cfg.lag") != 0 {
+		cfg.LagProb = 0.3
+	}
 	return cfg
 }
 
@@ -202,12 +216,22 @@ func Emit(c *Ctx, res *simrt.Result, tp *tape.Tape) {
 func BuildOut(c *Ctx, res *simrt.Result, tp *tape.Tape) *Out {
 	c.mu.Lock()
 	defer c.mu.Unlock()
+	if res.Status == "exit" && !c.exitExpected {
+		prop := c.Job.Property
+		if prop == "" {
+			prop = "?"
+		}
+		c.viol = append(c.viol, Violation{Property: prop, Rule: "crash", Key: "os.Exit", Msg: "the code under test terminated the process at sim time " + res.SimElapsed.String() + ": " + res.ExitNote})
+	}
 	o := &Out{
 		Scenario: c.Job.Scenario, Seed: c.Job.Seed, Status: res.Status, ExitNote: res.ExitNote,
 		Violations: c.viol, Stats: c.stats, Steps: res.Steps, Switches: res.Switches, Preemptions: res.Preemptions,
 		Stalls: res.Stalls, LockWaits: res.LockWaits, Goroutines: res.Goroutines,
 		Hash: fmt.Sprintf("%016x", res.Hash), SwitchHash: fmt.Sprintf("%016x", res.SwitchHash),
 		SitePairs: res.SitePairs, SimNs: int64(res.SimElapsed), Draws: len(tp.Eff), Inconclusive: c.incon,
+	}
+	if res.Lags > 0 {
+		c.stats["fault.goroutine_falls_behind_after_network_event"] += res.Lags
 	}
 	faults := 0
 	for k, v := range c.stats {
